@@ -44,3 +44,17 @@ V('C13', 'printer-drops-where', G, 'edb.pgsql.codegen.SQLSourceGenerator.visit_D
   'node.where_clause', 'None', 'C13.R5', 'DeleteStmt.where_clause', count=2)
 V('C13', 'neg-sorted-set-loop', D, 'edb.pgsql.compiler.dml.process_insert_rewrites',
   '    for e, ptrref in not_rewritten:', '    names = set(p.shortname.name for _, p in not_rewritten)\n    for _nm in sorted(names):\n        pass\n    for e, ptrref in not_rewritten:', None)
+
+V('C13', 'type-ctes-before-ptr-ctes', 'edb/pgsql/compiler/clauses.py', 'edb.pgsql.compiler.clauses.insert_ctes',
+  '        *ctx.ptr_inheritance_ctes.values(),\n        *ctx.ordered_type_ctes,\n', '        *ctx.ordered_type_ctes,\n        *ctx.ptr_inheritance_ctes.values(),\n',
+  'C13.R6', 'ptr_inheritance_ctes<ordered_type_ctes')
+V('C13', 'rewrite-cte-listed-before-body', 'edb/pgsql/compiler/relctx.py', 'edb.pgsql.compiler.relctx.range_for_material_objtype',
+  '''                    ctx.type_rewrite_ctes[key] = type_cte
+                    ctx.ordered_type_ctes.append(type_cte)
+''', '''                    ctx.type_rewrite_ctes[key] = type_cte
+''', 'C13.R6', 'type_rewrite_ctes-listed')
+V('C13', 'grouping-atoms-plain-set', 'edb/edgeql/desugar_group.py', 'edb.edgeql.desugar_group.collect_grouping_atoms',
+  'atoms: ordered.OrderedSet[str] = ordered.OrderedSet()', 'atoms: set[str] = set()', 'C13.R2', '_compile_grouping_value:iter=used_args')
+# negative control: params first or last does not matter for scope
+V('C13', 'neg-param-ctes-after-ptr', 'edb/pgsql/compiler/clauses.py', 'edb.pgsql.compiler.clauses.insert_ctes',
+  '        *ctx.param_ctes.values(),\n        *ctx.ptr_inheritance_ctes.values(),\n', '        *ctx.ptr_inheritance_ctes.values(),\n        *ctx.param_ctes.values(),\n', None)
